@@ -125,6 +125,41 @@ def overlaps():
     return out
 
 
+def triples():
+    """three parties: the run's completion held at a gate, close() from one task, then a
+    reset/run from another while the close is suspended"""
+    out = []
+    for hook in ('on_end_run', 'on_finished', 'on_change_state'):
+        for api3 in ('reset', 'run'):
+            pre = START + RUN_A + [['hold', hook], ['child', 'return'], settle(0.3), ['child_reset']]
+            steps = pre + [['call', 'B', 'close'], settle(0.3), ['call', 'C', api3, {}], settle(0.3),
+                           ['release_all'], settle(0.4), ['sample']]
+            out.append(S(steps, dict(family='triple', first='finish', gate=hook, second='close', third=api3,
+                                     point=f'finishing@{hook}+{api3}', who='other', expect_complete=False)))
+    # a reset held, close queued behind it, then a run queued behind both
+    for hook in ('on_change_script', 'on_initialize_run'):
+        pre = START + [['hold', hook], ['call', 'A', 'reset', {'statement': 'B'}], settle()]
+        steps = pre + [['call', 'B', 'close'], settle(0.2), ['call', 'C', 'run'], settle(0.2), ['release_all'], settle(0.4), ['sample']]
+        out.append(S(steps, dict(family='triple', first='reset', gate=hook, second='close', third='run',
+                                 point=f'reset@{hook}+run', who='other', expect_complete=False)))
+    return out
+
+
+def relay_order():
+    """the relay of the child's events is held inside a slow hook while later events queue up;
+    the run then ends (normally or by a kill): everything queued must still be delivered before end-run"""
+    out = []
+    for ending in ('return', 'kill', 'terminate'):
+        steps = START + [['hold', 'on_end_prompt'], ['call', 'A', 'run'], settle(0.6)]
+        if ending == 'return':
+            steps += [['child', 'return'], settle(0.5)]
+        else:
+            steps += [['call', 'B', ending], settle(0.5)]
+        steps += [['release_all'], settle(0.5), ['sample']]
+        out.append(S(steps, dict(family='relay-order', outcome=ending, expect_complete=False), config={'answer': 'next'}))
+    return out
+
+
 def ksweeps(ks=range(0, 16)):
     """window-level interleavings that gates cannot pin: second call after k loop hops"""
     out = []
@@ -149,6 +184,12 @@ def endings():
         steps = START + [['call', 'W', 'run_session'], settle(0.3), ['child', outcome], ['await', 'W', 8.0], settle(),
                          ['call', 'A', 'result'], settle(), ['sample']]
         out.append(S(steps, dict(family='ending', outcome=outcome, expect_result=exp)))
+    # the child process outlives the script body (a non-daemon thread): finished only after it has gone,
+    # and a reset + run right after must not overlap with it
+    steps = START + [['call', 'W', 'run_session'], settle(0.3), ['child', 'linger'], ['await', 'W', 10.0], ['child_reset'],
+                     ['call', 'A', 'reset'], settle(0.05), ['call', 'A', 'run'], settle(0.3), ['child', 'return'], settle(0.4),
+                     ['call', 'A', 'result'], settle(), ['sample']]
+    out.append(S(steps, dict(family='ending', outcome='linger', expect_result='none')))
     for sig, exp in (('interrupt', 'KeyboardInterrupt'), ('terminate', 'none'), ('kill', 'none')):
         # while the script is busy (after the prompt was answered)
         steps = START + [['call', 'W', 'run_session'], settle(0.3), ['call', 'A', sig], ['await', 'W', 8.0], settle(),
